@@ -175,6 +175,11 @@ pub fn gen_value(rng: &mut Rng, class: ColClass, row_seq: u64, salt: u64) -> Cel
             0.1,
             1e300,
             -1e-300,
+            // NaNs other than the reserved NULL marker (0x7ffaaaaaaaaaaaaa) are ordinary values
+            f64::NAN,
+            f64::from_bits(0x7ff8_0000_0000_0001),
+            f64::from_bits(0xfff8_0000_0000_0000),
+            f64::from_bits(0x7ff0_0000_0000_0001),
         ])),
         ColClass::FloatF32 => Cell::f((rng.range(-100000, 100000) as f32 / 8.0) as f64),
         ColClass::FloatWide => {
